@@ -313,7 +313,19 @@ def registration_leg(params, res):
     from ebpfcat.ebpfcat import FastSyncGroup, SyncManager
     rng = random.Random(params["seed"] * 13 + 1)
     old_rr = ecmod.randrange
-    ecmod.randrange = lambda n, *a: rng.randrange(4)
+    hostile = dict(collide=0, live=None)
+
+    def draw(n, *a):
+        # an unlucky streak: the next so many draws name numbers that are
+        # taken (any sequence is a possible outcome of randrange; with 63
+        # of 64 numbers taken 64 misses in a row have a chance of 36 %)
+        taken = [i for _, i, _ in (hostile["live"] or {}).values()]
+        if hostile["collide"] > 0 and taken:
+            hostile["collide"] -= 1
+            res.count("registration_draws_that_hit_a_taken_number")
+            return rng.choice(taken)
+        return rng.randrange(4)
+    ecmod.randrange = draw
     try:
         for round_ in range(30 if params["tier"] == "quick" else 300):
             with kern.session() as sess:
@@ -348,8 +360,12 @@ def registration_leg(params, res):
                         sg = FastSyncGroup(ecs[m], [dispatch.CountDev(
                             v[SyncManager.IN, 0], v[SyncManager.OUT, 0])])
                         sg.allocate()
+                        hostile["live"] = live
+                        hostile["collide"] = rng.choice(
+                            [0, 0, 1, 5, 63, 64, 65, 200])
                         ctx = ecs[m].register_sync_group(sg)
                         idx = ctx.__enter__()
+                        hostile["collide"] = 0
                         live[n] = (ctx, idx, m)
                         history.append(("register", n, idx, m))
                         n += 1
